@@ -26,6 +26,7 @@ def run(ctx):
     ctx.run_rule("RK", r_spec.rule_ref_consts, ["refimpl"])
     ctx.run_rule("RF", r_spec.rule_ref_flags, ["refimpl"])
     ctx.run_rule("RM", r_spec.rule_ref_merge, ["refimpl"])
+    ctx.run_rule("RL", r_spec.rule_ref_lazy_chunk, ["refimpl"])
     try:
         import r_round
         ctx.run_rule("R1r", r_round.rule_R1_refimpl, ["refimpl"])
